@@ -7,6 +7,7 @@ import (
 	"encoding/json"
 	"fmt"
 	"os"
+	"regexp"
 	"sort"
 	"strings"
 
@@ -580,6 +581,11 @@ func checkDiagnostics(c *reporter, uri string, doc *mdoc, out []outMsg) {
 // parser: for a text made of one ';'-terminated statement per line (no quotes, no
 // comments, so that neither tokens nor statements span lines) a line is broken iff
 // strict parsing of that line alone fails.
+var bareWord = regexp.MustCompile(`^[A-Za-z_][A-Za-z0-9_]*$`)
+
+var stmtWord = map[string]bool{"SELECT": true, "INSERT": true, "UPDATE": true, "DELETE": true, "CREATE": true, "ALTER": true, "DROP": true, "WITH": true, "MERGE": true,
+	"TRUNCATE": true, "REFRESH": true, "SHOW": true, "DESCRIBE": true, "EXPLAIN": true, "REPLACE": true, "BEGIN": true, "COMMIT": true, "ROLLBACK": true, "SET": true, "VALUES": true, "TABLE": true}
+
 func brokenLines(text string) ([]int, bool) {
 	if strings.ContainsAny(text, "'\"`$#\\") || strings.Contains(text, "--") || strings.Contains(text, "/*") {
 		return nil, false
@@ -588,6 +594,12 @@ func brokenLines(text string) ([]int, bool) {
 	for i, l := range strings.Split(text, "\n") {
 		t := strings.TrimSpace(l)
 		if t == "" {
+			continue
+		}
+		if bareWord.MatchString(t) && !stmtWord[strings.ToUpper(t)] {
+			// a lone word that starts no statement: a broken statement of its own (recovery resumes at the statement
+			// keyword that opens the next line)
+			bad = append(bad, i)
 			continue
 		}
 		if !strings.HasSuffix(t, ";") || strings.Count(t, ";") != 1 || t == ";" {
